@@ -223,7 +223,10 @@ def impl_primitives(face):
     """outcomes of the float primitives _populate_face_latlon_bound calls for this face, obtained by calling the real
     functions on the real float arrays (they are checked on their own by C14)"""
     I = impl()
-    g = build_grid([face])
+    # the same float coordinates as the evaluated variant sees (lon/lat degrees vs unit Cartesian vectors differ in the last
+    # bit, which decides zero-margin situations such as the reference point lying exactly on an edge)
+    src = face.get("source", "topology")
+    g = build_grid([face]) if src == "topology" else build_grid_vertices([face], src)
     from uxarray.grid.utils import _get_cartesian_face_edge_nodes, _get_lonlat_rad_face_edge_nodes
     fe_cart = _get_cartesian_face_edge_nodes(g.face_node_connectivity.values, g.n_face, g.n_max_face_edges,
                                              g.node_x.values, g.node_y.values, g.node_z.values)[0]
